@@ -11,7 +11,7 @@ import re
 from fractions import Fraction as F
 
 import c08_gen as G
-from c08 import (FX, T, T2, close, distribution, enc_case, make_case, oracle_value)
+from c08 import (FX, T, T2, close, distribution, enc_case, h2f, make_case, model_request, oracle_value)
 from common import REPO
 
 KINDS = ("constant", "exponential", "skyride", "skygrid", "linear")
@@ -477,6 +477,210 @@ def failure_paths(R, rng):
             ck.bucket(f"failure-paths/{name}/raises:{type(e).__name__}")
 
 
+# ----------------------------------------------------------------------------- scale regimes
+SCALES = [F(1, 10 ** 6), F(1, 10 ** 3), F(1), F(10 ** 3), F(10 ** 5), F(10 ** 6)]
+
+
+def _scaled(case, c):
+    d = dict(case)
+    d["samp"] = [x * c for x in case["samp"]]
+    d["coal"] = [x * c for x in case["coal"]]
+    d["thetas"] = [x * c for x in case["thetas"]]
+    if "grid" in case:
+        d["grid"] = [x * c for x in case["grid"]]
+    if "growth" in case:
+        d["growth"] = case["growth"] / c
+    return d
+
+
+def scale_regimes(R, rng, kind, n):
+    """the same genealogy at several orders of magnitude of the time unit (heights and population sizes times c, growth
+    divided by c, c = 1e-6 … 1e6; growth x root height stays of order one, so |growth| itself becomes tiny or huge):
+    every value against the exact Kingman oracle and the Lean model AT THAT SCALE (relative tolerance on the terms of the
+    density, never a tolerance that grows with the magnitude of the inputs), and the scaling law
+    log p(c t; c theta, g/c) = log p(t; theta, g) - (n-1) log c between the scales"""
+    ck = R.ck
+    base = make_case(rng, kind, n, flat=False)
+    if kind == "exponential":
+        root = max(base["coal"])
+        # growth x root height of order one, both signs
+        base["growth"] = F(rng.choice([-1, 1]) * rng.randint(1, 24), 8) / max(root, F(1, 8))
+    cls = type(distribution(base)).__name__
+    ref = None
+    for c in SCALES:
+        case = _scaled(base, c)
+        ck.case(key=("scale", kind, n, float(c), tuple(base["coal"]), tuple(base["thetas"])), bucket=f"scale/{kind}/c={float(c):g}")
+        try:
+            v = _scalar(distribution(case).log_prob(T(case["samp"] + case["coal"])))
+        except Exception as e:
+            R.violation(f"{cls}.log_prob:scale:raises", f"{cls}.log_prob raises at time unit x{float(c):g}: {type(e).__name__}: {str(e)[:120]}", case,
+                        {"scale": float(c)}, size=n)
+            continue
+        o, sc = oracle_value(case)
+        if v is None or not close(v, o, 1e-9, sc):
+            R.violation(f"{cls}.log_prob:scale:value",
+                        f"{cls}.log_prob with times and sizes x{float(c):g}" + (f" (growth {float(case['growth']):g})" if "growth" in case else "")
+                        + f" gives {v!r}; Kingman density {o!r} (n={n})", case, {"scale": float(c), "impl": v, "oracle": o}, size=n)
+            continue
+        req = model_request(case, case["samp"], case["coal"])
+        if req and R.drv:
+            m = R.drv.ask(req)
+            if m == "bad-op" or not close(v, h2f(m), 1e-9, sc):
+                ck.mismatch("value at a scaled time unit differs from the Lean model", {"case": enc_case(case), "scale": float(c), "impl": v, "model": m})
+        if c == 1:
+            ref = (v, sc)
+    if ref is not None:
+        for c in SCALES:
+            if c == 1:
+                continue
+            case = _scaled(base, c)
+            try:
+                v = _scalar(distribution(case).log_prob(T(case["samp"] + case["coal"])))
+            except Exception:
+                continue
+            want = ref[0] - (n - 1) * math.log(float(c))
+            if v is None or not close(v, want, 1e-9, ref[1] + (n - 1) * abs(math.log(float(c)))):
+                R.violation(f"{cls}.log_prob:scale:law",
+                            f"{cls}: scaling times and sizes by {float(c):g} (growth by 1/c) changes the value to {v!r}; the scaling law gives {want!r}",
+                            case, {"scale": float(c), "impl": v, "law": want}, size=n)
+
+
+def near_special(R, rng, n):
+    """guards at "special" values compared against the EXACT value, not a tolerance: piecewise-linear population sizes
+    whose neighbouring knots differ by a relative 2^-52 … 2^-20 (the flat-segment branch is `difference != 0`), an
+    exponential growth rate with growth x duration from 2^-40 up to order one, a population size of 2^60"""
+    ck = R.ck
+    base = make_case(rng, "linear", n, flat=False)
+    for k in (52, 44, 36, 28, 20):
+        case = dict(base)
+        th = list(base["thetas"])
+        i = rng.randrange(len(th) - 1)
+        th[i] = F(3) * th[i]
+        th[i + 1] = th[i] * (1 + F(1, 2 ** (k - 1)) * rng.choice([1, -1]))
+        case["thetas"] = th
+        ck.case(key=("near-flat", n, k, i, tuple(base["coal"])), bucket=f"near-special/linear/knots-differ-by-2^-{k}")
+        v = _scalar(distribution(case).log_prob(T(case["samp"] + case["coal"])))
+        o, sc = oracle_value(case)
+        if v is None or not close(v, o, 1e-9, sc):
+            R.violation("PiecewiseLinearCoalescentGrid.log_prob:near-flat",
+                        f"PiecewiseLinearCoalescentGrid.log_prob with knots {i},{i + 1} differing by a relative 2^-{k - 1}: {v!r}; Kingman density {o!r} (n={n})",
+                        case, {"impl": v, "oracle": o}, size=n)
+    base = make_case(rng, "exponential", n, flat=False)
+    root = max(base["coal"])
+    for k in (40, 30, 20, 10, 4):
+        for sign in (1, -1):
+            case = dict(base, growth=F(sign, 2 ** k) / root)
+            ck.case(key=("tiny-growth", n, k, sign, tuple(base["coal"])), bucket=f"near-special/exponential/growth-x-root=2^-{k}")
+            v = _scalar(distribution(case).log_prob(T(case["samp"] + case["coal"])))
+            o, sc = oracle_value(case)
+            # (exp(g b) - exp(g a))/g is conditioned like 1/(g (b - a)): the tolerance follows the conditioning of the
+            # FORMULA at this growth rate, an honest bound for the double evaluation of the stated expression
+            tol = max(1e-9, 2.0 ** (k - 48))
+            if v is None or not close(v, o, tol, sc):
+                R.violation("ExponentialCoalescent.log_prob:tiny-growth",
+                            f"ExponentialCoalescent.log_prob with growth x root height = {sign}*2^-{k}: {v!r}; Kingman density {o!r} (n={n})",
+                            case, {"impl": v, "oracle": o}, size=n)
+    for kind in ("constant", "skyride", "skygrid"):
+        b = make_case(rng, kind, n, flat=False)
+        case = dict(b, thetas=[x * 2 ** 60 for x in b["thetas"]])
+        ck.case(key=("huge-theta", kind, n, tuple(b["coal"])), bucket=f"near-special/{kind}/theta=2^60")
+        v = _scalar(distribution(case).log_prob(T(case["samp"] + case["coal"])))
+        o, sc = oracle_value(case)
+        if v is None or not close(v, o, 1e-9, sc):
+            R.violation(f"{type(distribution(case)).__name__}.log_prob:huge-theta", f"{kind} with population sizes x 2^60: {v!r}; Kingman density {o!r}", case,
+                        {"impl": v, "oracle": o}, size=n)
+
+
+# ----------------------------------------------------------------------------- time-origin regimes
+def time_origin(R, rng, kind, n):
+    """sampling and coalescent times shifted by a constant: every tip tied at t0 != 0, youngest tip != 0, negative origin —
+    through every route that accepts heights directly (distribution on raw tensors, `times`/`events` JSON, FakeTreeModel):
+    agreement with the Kingman density of the shifted input, translation invariance where the model is translation
+    invariant, and a contemporaneous sample against the same sample with one tip moved by a hair (special-cased fast paths
+    vs the general path)"""
+    import torchtree.evolution.coalescent as C
+    from torchtree import Parameter
+
+    ck = R.ck
+    ctor = _ctor(kind)
+    for homo in (True, False):
+        g = G.genealogy(rng, n, q=3, homochronous=homo)
+        base = make_case(rng, kind, n, gen=g, flat=False)
+        cls = type(distribution(base)).__name__
+        v0 = None
+        shifts = [F(0), F(3, 2), F(37, 8), F(1000)] + ([F(-5, 4), F(-250)] if kind != "linear" else [])
+        if kind == "exponential":
+            # exp(growth x time) must stay inside double range: far origins only with a growth rate to match
+            shifts = [t for t in shifts if abs(float(base["growth"]) * (float(t) + float(max(base["coal"])))) < 300]
+        for t0 in shifts:
+            case = dict(base, samp=[x + t0 for x in base["samp"]], coal=[x + t0 for x in base["coal"]])
+            invariant = kind in ("constant", "skyride", "skygrid")
+            if "grid" in base and kind == "skygrid":
+                case["grid"] = [x + t0 for x in base["grid"]]
+            if "grid" in case and any(gp in case["coal"] for gp in case["grid"]):
+                continue
+            o, sc = oracle_value(case)
+            name = ("all-tips-tied" if homo else "serial") + f"/origin={float(t0):g}"
+            ck.case(key=("origin", kind, n, homo, float(t0), tuple(base["coal"])), bucket=f"time-origin/{kind}/{name}")
+            vals = {}
+            try:
+                h = T(case["samp"] + case["coal"])
+                vals["distribution"] = _scalar(distribution(case).log_prob(h))
+                tree = C.FakeTreeModel(Parameter("heights", h.clone()))
+                th = Parameter("theta", T(case["thetas"]))
+                if kind in ("constant", "skyride"):
+                    m = ctor("c", th, tree)
+                elif kind == "exponential":
+                    m = ctor("c", th, Parameter("growth", T([case["growth"]])), tree)
+                else:
+                    m = ctor("c", th, Parameter("grid", T(case["grid"])), tree)
+                vals["FakeTreeModel"] = _scalar(m())
+                ev = sorted([(t, 1) for t in case["samp"]] + [(t, 0) for t in case["coal"]], key=lambda p: (p[0], -p[1]))
+                js = {"id": "c", "type": ctor.__name__,
+                      "theta": {"id": "theta", "type": "Parameter", "tensor": [float(x) for x in case["thetas"]], "dtype": "torch.float64"},
+                      "times": [float(t) for t, _ in ev], "events": [e for _, e in ev]}
+                if kind == "exponential":
+                    js["growth"] = {"id": "growth", "type": "Parameter", "tensor": [float(case["growth"])], "dtype": "torch.float64"}
+                if "grid" in case:
+                    js["grid"] = [float(x) for x in case["grid"]]
+                vals["times/events-json"] = _scalar(ctor.from_json(js, {})())
+            except Exception as e:
+                R.violation(f"{cls}.log_prob:origin:raises", f"{cls} raises with {name}: {type(e).__name__}: {str(e)[:120]}", case, {"origin": float(t0)}, size=n)
+                continue
+            for route, v in vals.items():
+                if v is None or not close(v, o, 1e-9, sc):
+                    R.violation(f"{cls}.log_prob:origin:value",
+                                f"{cls} ({route}) with {name}: {v!r}; Kingman density {o!r} (n={n})", case,
+                                {"origin": float(t0), "route": route, "impl": v, "oracle": o}, size=n)
+                    break
+            else:
+                req = model_request(case, case["samp"], case["coal"])
+                if req and R.drv:
+                    mm = R.drv.ask(req)
+                    if mm == "bad-op" or not close(vals["distribution"], h2f(mm), 1e-9, sc):
+                        ck.mismatch("value at a shifted time origin differs from the Lean model", {"case": enc_case(case), "origin": float(t0)})
+                if invariant:
+                    if v0 is None:
+                        v0 = (vals["distribution"], sc)
+                    elif not close(vals["distribution"], v0[0], 1e-9, v0[1]):
+                        R.violation(f"{cls}.log_prob:origin:translation", f"{cls}: shifting every time by {float(t0):g} changes the value from {v0[0]!r} to "
+                                    f"{vals['distribution']!r}", case, {"origin": float(t0)}, size=n)
+            if homo and n > 2:
+                # the same contemporaneous sample with ONE tip moved by a hair: the general path; the value moves by O(1e-7)
+                eps = F(1, 2 ** 24)
+                near = dict(case, samp=[case["samp"][0] + eps] + case["samp"][1:])
+                try:
+                    vn = _scalar(distribution(near).log_prob(T(near["samp"] + near["coal"])))
+                    vh = vals.get("distribution")
+                    on, _ = oracle_value(near)
+                    if vn is not None and vh is not None and abs((vn - vh) - (on - o)) > 1e-9 * max(1.0, sc):
+                        R.violation(f"{cls}.log_prob:origin:homochronous-path",
+                                    f"{cls}: contemporaneous tips at {float(t0):g} give {vh!r}, the same sample with one tip moved by 6e-8 gives {vn!r}; "
+                                    f"the Kingman densities differ by {on - o!r} only", case, {"origin": float(t0)}, size=n)
+                except Exception:
+                    pass
+
+
 def run(R, rng, ck):
     sizes = [2, 3, 5] if not ck.thorough() else [2, 3, 4, 5, 8, 13]
     for n in sizes:
@@ -485,6 +689,11 @@ def run(R, rng, ck):
             R.guard("grad_modes", grad_modes_and_immutability, R, rng, kind, n)
             R.guard("repeat_and_copies", repeat_and_copies, R, rng, kind, n)
             R.guard("special_values", special_values, R, rng, kind, n)
+    for n in ([2, 4, 7, 12] if not ck.thorough() else [2, 3, 4, 5, 7, 12, 20, 35]):
+        for kind in KINDS:
+            R.guard("scale_regimes", scale_regimes, R, rng, kind, n)
+            R.guard("time_origin", time_origin, R, rng, kind, n)
+        R.guard("near_special", near_special, R, rng, n)
     for kind in KINDS + ("softgrid", "softtemp"):
         R.guard("dtype_regimes", dtype_regimes, R, rng, kind, rng.choice([3, 4, 6]))
     for kind in KINDS:
